@@ -48,10 +48,11 @@ def gen_cases(seed, tier):
             for affine in (True, False):
                 for dtype in ("float32", "float64"):
                     for trained in (False, True):
-                        cfgs.append(dict(backend=backend, bounded=bounded, affine=affine, dtype=dtype, trained=trained))
+                        for refit in (False, True):
+                            cfgs.append(dict(backend=backend, bounded=bounded, affine=affine, dtype=dtype, trained=trained, refit=refit))
     rng = rng_from(stream_seeds(seed, ID, 0)["scenario"])
     if tier == "quick":
-        idx = sorted(rng.choice(len(cfgs), size=14, replace=False).tolist())
+        idx = sorted(rng.choice(len(cfgs), size=16, replace=False).tolist())
         # make sure both back-ends and all three bounded settings appear
         cfgs = [cfgs[i] for i in idx]
     out = []
@@ -136,6 +137,13 @@ def build_flow(cfg, seed):
         fit_kw = {"max_epochs": 2, "batch_size": 100, "show_progress": False}
     x = lo + (hi - lo) * rng.uniform(0.25, 0.75, size=(300, d))
     npdt = np.float32 if cfg["dtype"] == "float32" else np.float64
+    if cfg.get("refit"):
+        # the same flow object is fitted twice, first to a much narrower data set (different whitening scale)
+        x_first = lo + (hi - lo) * rng.uniform(0.45, 0.55, size=(300, d))
+        if cfg["trained"]:
+            flow.fit(xp.asarray(x_first.astype(npdt)), **fit_kw)
+        else:
+            flow.fit_data_transform(xp.asarray(x_first.astype(npdt)))
     if cfg["trained"]:
         flow.fit(xp.asarray(x.astype(npdt)), **fit_kw)
     else:
@@ -272,7 +280,7 @@ def run_case(case, workdir):
     return {
         "violations": V, "aborted": None, "evaluations": evaluations, "events": evaluations,
         "probes": probes, "faults_fired": {"restart": 1},
-        "nontrivial_keys": [[cfg["backend"], cfg["bounded"], cfg["affine"], cfg["dtype"], cfg["trained"]]] if conclusive else [],
+        "nontrivial_keys": [[cfg["backend"], cfg["bounded"], cfg["affine"], cfg["dtype"], cfg["trained"], cfg.get("refit", False)]] if conclusive else [],
         "digest": digest_of([zs, [v["oracle"] for v in V]]),
         "sample": jsonable({"cfg": cfg, "E_Zhat": mean, "se": se, "median_ess": float(np.median(ess)), "replicates": len(zs)}),
     }
